@@ -36,13 +36,13 @@ PROPS = {
     },
     "C18": {
         "pkg": "handlers", "level": "exploration",
-        "quick": {"stages": [st("^TestC18Stateful", 3000), st("^TestC18Soak", 500, shards=5)]},
-        "thorough": {"stages": [st("^TestC18Stateful", 100000, shards=12, timeout=3000), st("^TestC18Stateful", 10000, shards=4, race=True, timeout=3000), st("^TestC18Soak", 20000, shards=8, timeout=3000)]},
+        "quick": {"stages": [st("^TestC18Stateful", 3000), st("^TestC18Soak", 500, shards=5), st("^TestC18PipelinedRepeats", 600)]},
+        "thorough": {"stages": [st("^TestC18Stateful", 100000, shards=12, timeout=3000), st("^TestC18Stateful", 10000, shards=4, race=True, timeout=3000), st("^TestC18Soak", 20000, shards=8, timeout=3000), st("^TestC18PipelinedRepeats", 40000, shards=4, timeout=3000), st("^TestC18PipelinedRepeats", 3000, shards=2, race=True, timeout=3000)]},
     },
     "C19": {
         "pkg": "handlers", "level": "exploration",
-        "quick": {"stages": [st("^TestC19(Metrics|Concurrent)", 1500), st("^TestC19ParallelDirections", 120, shards=4), st("^TestC19Soak", 12, shards=2)]},
-        "thorough": {"stages": [st("^TestC19(Metrics|Concurrent)", 30000, shards=12, timeout=3000), st("^TestC19ParallelDirections", 4000, shards=8, timeout=3000), st("^TestC19Soak", 400, shards=4, timeout=3000), st("^TestC19(Metrics|Concurrent|ParallelDirections)", 3000, shards=4, race=True, timeout=3000)]},
+        "quick": {"stages": [st("^TestC19(Metrics|Concurrent)", 1500), st("^TestC19ParallelDirections", 120, shards=4), st("^TestC19Soak", 12, shards=2), st("^TestC19Churn", 10, shards=4)]},
+        "thorough": {"stages": [st("^TestC19(Metrics|Concurrent)", 30000, shards=12, timeout=3000), st("^TestC19ParallelDirections", 4000, shards=8, timeout=3000), st("^TestC19Soak", 400, shards=4, timeout=3000), st("^TestC19Churn", 300, shards=6, timeout=3000), st("^TestC19Churn", 30, shards=2, race=True, timeout=3000), st("^TestC19(Metrics|Concurrent|ParallelDirections)", 3000, shards=4, race=True, timeout=3000)]},
     },
     "C08": {
         "pkg": "handlers", "level": "exploration",
